@@ -34,10 +34,18 @@ def make_catchment(gridmod, fr, fc, cells, s, fxll, fyll):
     return cat
 
 
+_COARSE = [0]
+
+
 def coarse_grid(gridmod, g, s, fxll, fyll):
     q = s / 4.0
-    return gridmod.Grid("coarse", g["cc"], g["rc"], cellsize=g["cs"] * q,
-                        xllcorner=fxll + g["ox"] * q, yllcorner=fyll + g["oy"] * q)
+    cg = gridmod.Grid("coarse", g["cc"], g["rc"], cellsize=g["cs"] * q,
+                      xllcorner=fxll + g["ox"] * q, yllcorner=fyll + g["oy"] * q)
+    _COARSE[0] += 1
+    if _COARSE[0] % 2:
+        # the grid a catchment is intersected with usually holds data (rainfall, a mask): the weights do not depend on them
+        cg.data = 1.0 + np.arange(g["rc"] * g["cc"], dtype=float).reshape(g["rc"], g["cc"]) % 7
+    return cg
 
 
 def as_count(x):
